@@ -13,6 +13,11 @@ pub(crate) struct SymmetricStateData {
     h:       [u8; MAXHASHLEN],
     ck:      [u8; MAXHASHLEN],
     has_key: bool,
+    // The handshake cipher's key and nonce are part of the state a checkpoint has to cover:
+    // a failed read/write may have re-keyed the cipher or advanced its nonce.
+    k:       [u8; CIPHERKEYLEN],
+    k_set:   bool,
+    n:       u64,
 }
 
 impl Default for SymmetricStateData {
@@ -21,6 +26,9 @@ impl Default for SymmetricStateData {
             h:       [0_u8; MAXHASHLEN],
             ck:      [0_u8; MAXHASHLEN],
             has_key: false,
+            k:       [0_u8; CIPHERKEYLEN],
+            k_set:   false,
+            n:       0,
         }
     }
 }
@@ -65,7 +73,7 @@ impl SymmetricState {
         cipher_key.copy_from_slice(&hkdf_output.1[..CIPHERKEYLEN]);
 
         self.inner.ck = hkdf_output.0;
-        self.cipherstate.set(&cipher_key, 0);
+        self.set_cipher_key(&cipher_key);
         self.inner.has_key = true;
     }
 
@@ -94,7 +102,13 @@ impl SymmetricState {
         // TODO(mcginty): use `split_array_ref` once stable to avoid memory inefficiency
         let mut cipher_key = [0_u8; CIPHERKEYLEN];
         cipher_key.copy_from_slice(&hkdf_output.2[..CIPHERKEYLEN]);
-        self.cipherstate.set(&cipher_key, 0);
+        self.set_cipher_key(&cipher_key);
+    }
+
+    fn set_cipher_key(&mut self, key: &[u8; CIPHERKEYLEN]) {
+        self.cipherstate.set(key, 0);
+        self.inner.k = *key;
+        self.inner.k_set = true;
     }
 
     pub fn has_key(&self) -> bool {
@@ -151,11 +165,16 @@ impl SymmetricState {
     }
 
     pub(crate) fn checkpoint(&mut self) -> SymmetricStateData {
-        self.inner
+        let mut checkpoint = self.inner;
+        checkpoint.n = self.cipherstate.nonce();
+        checkpoint
     }
 
     pub(crate) fn restore(&mut self, checkpoint: SymmetricStateData) {
         self.inner = checkpoint;
+        if checkpoint.k_set {
+            self.cipherstate.set(&checkpoint.k, checkpoint.n);
+        }
     }
 
     pub fn handshake_hash(&self) -> &[u8] {
